@@ -212,7 +212,7 @@ func runC17(c *eng.Ctx, tier string) {
 	}
 	// the upload call
 	var uploads []*ssa.Call
-	doBackup := p.Method("server", "Server", "doBackup")
+	doBackup := anchor(p, "server", "(*Server).doBackup")
 	eng.Instrs(task, func(in ssa.Instruction) {
 		if call, ok := in.(*ssa.Call); ok {
 			cal := eng.Callee(&call.Call)
